@@ -133,6 +133,54 @@ func purityCase(t *mon.T) {
 	}
 }
 
+// reuseCase: a short history on a fixed set of objects. Three operand objects
+// and one destination are overwritten with new values between calls (as a
+// program that recycles Decimals does); every call must give what the same
+// call gives on freshly allocated objects. This is where state carried over
+// from an earlier call - stale inline words, caches keyed by object identity,
+// results that depend on an operand's previous content - becomes observable.
+func reuseCase(t *mon.T) {
+	r := t.Rng
+	objs := []*apd.Decimal{new(apd.Decimal), new(apd.Decimal), new(apd.Decimal)}
+	dst := new(apd.Decimal)
+	hist := []string{}
+	for step := 0; step < 10; step++ {
+		op, c, x, y, aux := opOperands(r)
+		traps := randomTraps(r)
+		ctx := br.Context(c, traps)
+		xi, yi := r.Intn(3), r.Intn(3)
+		br.SetApd(objs[xi], x)
+		var ay *apd.Decimal
+		if y.C != nil {
+			if yi == xi {
+				y = x
+			}
+			br.SetApd(objs[yi], y)
+			ay = objs[yi]
+		}
+		hist = append(hist, fmt.Sprintf("%s(%s,%s)", op, x.String(), fmt.Sprint(y)))
+		res, err := callOn(op, ctx, dst, objs[xi], ay, aux)
+		got := Outcome{Res: br.FromApd(dst), Flags: res, Err: err, Raw: dst}
+		var want Outcome
+		if y.C != nil && yi == xi {
+			want, _, _ = CallAliased(op, ctx, x, x.Clone(), aux, AliasXY, nil)
+		} else {
+			want, _, _ = CallAliased(op, ctx, x, y, aux, AliasDistinct, nil)
+		}
+		t.EvalN(2)
+		t.Count("reuse/" + op)
+		if why := compareOutcomes(op, want, got); why != "" {
+			d := detail(op, c, x, y, got, why)
+			d["history"] = hist
+			d["traps"] = br.FlagNames(traps)
+			d["fresh_objects"] = meaningful(want.Res) + " [" + br.FlagNames(want.Flags) + "]"
+			t.Fail("outcome-depends-on-history", d)
+			return
+		}
+	}
+	t.Nontrivial(fmt.Sprint(hist))
+}
+
 // setterCase: non-Context operations that write a destination.
 func setterCase(t *mon.T) {
 	r := t.Rng
@@ -269,7 +317,8 @@ func runC06(r *mon.Run) {
 		"Reduce, SetString, Context.SetString, Compose, SetFinite, Modf) likewise; operands and the Context are snapshotted bit-for-bit " +
 		"(including the BigInt inline/heap representation through the VerifRepr hook) before and after each call; the package-level shared " +
 		"state fingerprint (VerifSharedState hook: constants, lookup tables, BaseContext) is taken every 1500 cases and at the end; 64 canary " +
-		"calls are evaluated at the start and re-evaluated after every family. distinct_nontrivial = distinct (op, operands, non-zero destination pre-state)."
+		"calls are evaluated at the start and re-evaluated after every family; a 'reuse' family replays 10-call histories on recycled " +
+		"operand and destination objects and compares every call with the same call on fresh objects. distinct_nontrivial = distinct (op, operands, non-zero destination pre-state)."
 	r.Assumptions = []string{"relational: apd compared with apd; meaningful fields per form (NaN: sign and payload; Infinity: sign; finite: all fields)"}
 	sharedFP.first = ""
 	sharedFP.checks = 0
@@ -323,6 +372,7 @@ func runC06(r *mon.Run) {
 		}
 	})
 	r.Parallel("purity", r.N(120000, 12000000), purityCase)
+	r.Parallel("reuse", r.N(15000, 1500000), reuseCase)
 	recheck("after-purity")
 	r.Parallel("setters", r.N(80000, 6000000), setterCase)
 	recheck("after-setters")
